@@ -57,19 +57,20 @@ func (f *failingReader) Read(p []byte) (int, error) {
 
 // Scenario is a complete, replayable description of a world and requests.
 type Scenario struct {
-	Name        string                   `json:"name,omitempty"`
-	Actors      []ActorSpec              `json:"actors"`
-	ExtraHosts  []string                 `json:"extra_local_hosts,omitempty"`
-	Store       map[string]interface{}   `json:"store,omitempty"`
-	Inboxes     map[string][]interface{} `json:"inboxes,omitempty"`
-	Outboxes    map[string][]interface{} `json:"outboxes,omitempty"`
-	StoredInbox map[string]string        `json:"stored_inbox,omitempty"`
-	Remote      map[string]RemoteSpec    `json:"remote,omitempty"`
-	InboxPage   interface{}              `json:"inbox_page,omitempty"`
-	OutboxPage  interface{}              `json:"outbox_page,omitempty"`
-	Cfg         Config                   `json:"config"`
-	Requests    []Request                `json:"requests"`
-	FailAt      []int                    `json:"fail_at,omitempty"`
+	Name         string                   `json:"name,omitempty"`
+	Actors       []ActorSpec              `json:"actors"`
+	ExtraHosts   []string                 `json:"extra_local_hosts,omitempty"`
+	Store        map[string]interface{}   `json:"store,omitempty"`
+	Inboxes      map[string][]interface{} `json:"inboxes,omitempty"`
+	Outboxes     map[string][]interface{} `json:"outboxes,omitempty"`
+	StoredInbox  map[string]string        `json:"stored_inbox,omitempty"`
+	Remote       map[string]RemoteSpec    `json:"remote,omitempty"`
+	InboxPage    interface{}              `json:"inbox_page,omitempty"`
+	OutboxPage   interface{}              `json:"outbox_page,omitempty"`
+	Cfg          Config                   `json:"config"`
+	Requests     []Request                `json:"requests"`
+	FailAt       []int                    `json:"fail_at,omitempty"`
+	FailUnlockAt []int                    `json:"fail_unlock_at,omitempty"`
 }
 
 // Response is what one request produced.
@@ -98,6 +99,7 @@ type Result struct {
 	After     Snapshot   `json:"-"`
 	Issued    []string   `json:"issued_ids,omitempty"`
 	Fallible  int        `json:"fallible_calls"`
+	Unlocks   int        `json:"unlock_calls"`
 	World     *World     `json:"-"`
 }
 
@@ -137,6 +139,9 @@ func (sc *Scenario) Build() *World {
 	w.OutboxPage = sc.OutboxPage
 	for _, k := range sc.FailAt {
 		w.FailAt[k] = true
+	}
+	for _, k := range sc.FailUnlockAt {
+		w.FailUnlockAt[k] = true
 	}
 	return w
 }
@@ -312,6 +317,7 @@ func Run(sc *Scenario) *Result {
 	res.After = w.Snapshot()
 	res.Issued = append([]string{}, w.Issued...)
 	res.Fallible = w.FallibleCount()
+	res.Unlocks = w.UnlockCount()
 	return res
 }
 
